@@ -864,6 +864,20 @@ func qPKRefs(refs []qColRef) []qColRef {
 }
 
 func qGenQuery(rt *rapid.T, tables []*qTable) qQuery {
+	q := qGenQuery0(rt, tables)
+	for _, t := range q.Tables {
+		for _, ix := range t.Idx {
+			for _, pl := range ix.Prefix {
+				if pl > 0 && !q.has("prefix_index_table") {
+					q.Shape += " prefix_index_table"
+				}
+			}
+		}
+	}
+	return q
+}
+
+func qGenQuery0(rt *rapid.T, tables []*qTable) qQuery {
 	form := rapid.SampledFrom([]string{"filter", "filter", "filter", "order", "order", "count", "countpred", "group", "group", "distinct", "join", "join", "join", "join", "join3"}).Draw(rt, "form")
 	t := tables[rapid.IntRange(0, len(tables)-1).Draw(rt, "table")]
 	refs := qRefs(t, "")
